@@ -83,6 +83,51 @@ Definition nil_item (e : schema) : item :=
   | _ => zero_item e               (* writer applied to the zero value *)
   end.
 
+(* ---- boolean equality of values --------------------------------------------- *)
+Fixpoint value_eqb (a b : value) : bool :=
+  match a, b with
+  | VNum x, VNum y => x =? y
+  | VBool x, VBool y => Bool.eqb x y
+  | VBytes x, VBytes y => bytes_eqb x y
+  | VList x, VList y =>
+    (fix go (x y : list value) : bool :=
+       match x, y with
+       | [], [] => true
+       | i :: x', j :: y' => value_eqb i j && go x' y'
+       | _, _ => false
+       end) x y
+  | VNil, VNil => true
+  | _, _ => false
+  end.
+
+Definition opt_value_eqb (a b : option value) : bool :=
+  match a, b with
+  | Some x, Some y => value_eqb x y
+  | None, None => true
+  | _, _ => false
+  end.
+
+(* ---- well-formed schemas ------------------------------------------------------- *)
+Definition uint_bits_ok (bits : N) : bool :=
+  (bits =? 8) || (bits =? 16) || (bits =? 32) || (bits =? 64).
+(* the target of a plain pointer: a type whose decoder never yields nil *)
+Definition plain_top (s : schema) : bool :=
+  match s with SPtr _ | SOpt _ | SCustom _ _ => false | _ => true end.
+(* the target of an rlp:"nil" pointer: a type that never encodes to an empty value *)
+Definition opt_elem_ok (e : schema) : bool :=
+  match e with SArr n => 1 <=? n | SStruct (_ :: _) => true | _ => false end.
+Fixpoint wf_schema (s : schema) : bool :=
+  match s with
+  | SUint bits => uint_bits_ok bits
+  | SList e => wf_schema e
+  | SStruct fs => (fix go (fs : list schema) : bool :=
+                     match fs with [] => true | f :: r => wf_schema f && go r end) fs
+  | SPtr e => plain_top e && wf_schema e
+  | SOpt e => opt_elem_ok e && wf_schema e
+  | SCustom _ w => wf_schema w
+  | _ => true
+  end.
+
 Section Customs.
 (* custom coders: [cenc id v] turns the type's value into the value of the wire
    schema it delegates to, [cdec id w] is the post-processing of DecodeRLP. *)
@@ -180,21 +225,69 @@ Definition encode_typed (s : schema) (v : value) : option bytes :=
 Definition decode_typed (s : schema) (b : bytes) : option value :=
   bind (decode b) (of_item s).
 
+(* values inside the round-trip domain: no nil where a plain pointer is
+   expected (the encoder writes an empty value for it, the decoder builds a
+   fresh object), and custom values that their own DecodeRLP gives back *)
+Fixpoint good (s : schema) (v : value) {struct s} : bool :=
+  match s with
+  | SList e => match v with VList l => forallb (good e) l | _ => true end
+  | SStruct fs =>
+    match v with
+    | VList l =>
+      (fix go (fs : list schema) (l : list value) : bool :=
+         match fs, l with
+         | f :: fs', x :: l' => good f x && go fs' l'
+         | _, _ => true
+         end) fs l
+    | _ => true
+    end
+  | SPtr e => match v with VNil => false | _ => good e v end
+  | SOpt e => match v with VNil => true | _ => good e v end
+  | SCustom id w =>
+    match cenc id v with
+    | Some wv => opt_value_eqb (cdec id wv) (Some v) && good w wv
+    | None => false
+    end
+  | _ => true
+  end.
+
+(* [lenient s it] = decoding [it] as [s] goes through a place where the Go
+   decoder accepts more than one wire form for the value it produces:
+   (a) rlp:"nil" pointers take both empty kinds (makeOptionalPtrDecoder),
+   (b) a custom DecodeRLP normalises what it read (re-encoding the decoded
+       value gives a different wire value). *)
+Fixpoint lenient (s : schema) (it : item) {struct s} : bool :=
+  match s with
+  | SList e => match it with Lst l => existsb (lenient e) l | _ => false end
+  | SStruct fs =>
+    match it with
+    | Lst l =>
+      (fix go (fs : list schema) (l : list item) : bool :=
+         match fs, l with
+         | f :: fs', x :: l' => lenient f x || go fs' l'
+         | _, _ => false
+         end) fs l
+    | _ => false
+    end
+  | SPtr e => lenient e it
+  | SOpt e =>
+    match it with
+    | Str [] => negb (item_eqb (nil_item e) (Str []))
+    | Lst [] => negb (item_eqb (nil_item e) (Lst []))
+    | _ => lenient e it
+    end
+  | SCustom id w =>
+    lenient w it ||
+    match of_item w it with
+    | Some wv =>
+      match cdec id wv with
+      | Some v => match cenc id v with Some wv' => negb (value_eqb wv wv') | None => true end
+      | None => false
+      end
+    | None => false
+    end
+  | _ => false
+  end.
+
 End Customs.
 
-(* ---- boolean equality of values --------------------------------------------- *)
-Fixpoint value_eqb (a b : value) : bool :=
-  match a, b with
-  | VNum x, VNum y => x =? y
-  | VBool x, VBool y => Bool.eqb x y
-  | VBytes x, VBytes y => bytes_eqb x y
-  | VList x, VList y =>
-    (fix go (x y : list value) : bool :=
-       match x, y with
-       | [], [] => true
-       | i :: x', j :: y' => value_eqb i j && go x' y'
-       | _, _ => false
-       end) x y
-  | VNil, VNil => true
-  | _, _ => false
-  end.
